@@ -275,6 +275,12 @@ bool XmlNode::equals(const XmlNodePtr &node) const
 
 XmlNodePtr XmlNode::firstChild() const
 {
+    // The "children" of an entity reference is the declaration of the entity,
+    // which is not a node of the document tree.
+    if (mPimpl->mXmlNodePtr->type == XML_ENTITY_REF_NODE) {
+        return nullptr;
+    }
+
     xmlNodePtr child = mPimpl->mXmlNodePtr->children;
     XmlNodePtr childHandle = nullptr;
     while (child != nullptr) {
